@@ -10,27 +10,41 @@ META = {
              "reference stable sort is a permutation, ascending and stable (every ==-class keeps its input order); sort = duplicate removal of it is "
              "strictly ascending with the same elements; keysort is a stable permutation ascending on keys; ordset union/subtract/intersection/symdiff "
              "results are strictly ascending with the set-theoretic membership; list_to_set keeps exactly the first occurrences; the finite-map model "
-             "satisfies the put/get/del laws and keeps its keys strictly ascending over every history. The implementation (sort/2, keysort/2 in "
-             "dispatch.rs; lists.pl, ordsets.pl, pairs.pl, assoc.pl) is tied to these models differentially on generated lists of mixed terms in every "
-             "heap representation and on histories of put_assoc/del_assoc/get_assoc, all results compared in Coq."),
-    "note": ("Trusted: Coq kernel + vm_compute. The models are reference (specification) models, not mirrors: the sort model is a stable insertion sort "
-             "(the result of a stable sort is unique, so this fixes Rust's sort_by/sort_unstable_by+dedup results up to ==); library(assoc)'s AVL code is "
-             "not mirrored -- the returned tree is checked by a Gallina checker (in-order content = model, strictly ascending keys, every balance "
-             "symbol equals the height difference, |difference| <= 1) on every history, which is a test of the balance invariant, not a proof. "
-             "msort/2, predsort/3, subtract/3, max_list/2 do not exist in this scryer-prolog; sorting without duplicate removal is observed through keysort "
-             "of X-X pairs, list_max/list_min replace max_list/min_list. Results are compared up to == (the harness cannot distinguish -0.0 from 0.0). "
-             "No axioms."),
-    "technique": "Coq proof (stable_sort_generic, sort_strictly_sorted, sort_same_elements, keysort_stable, ord_*_spec, list_to_set_spec, assoc_* laws) over reference models + differential correspondence evaluated in Coq",
+             "satisfies the put/get/del laws and keeps its keys strictly ascending over every history. library(assoc) is additionally covered by an "
+             "impl-mirror (coq/C14/Avl.v follows assoc.pl clause by clause: insert/adjust/table, delete/del_min/del_max/deladjust/deltable, "
+             "rebalance/avl_geq/table2, get_assoc, list_to_assoc, assoc_to_list/keys/values) proved, for ALL trees satisfying the AVL invariant and all "
+             "keys/values, to succeed, to refine the finite-map model (avl_put_refines, avl_get_refines, avl_del_refines, avl_list_to_assoc_refines, "
+             "avl_views, avl_history_refines) and to preserve search-tree order and balance (stored symbol = sign of height(R)-height(L), |difference| <= 1), "
+             "with the height bound fib(height+2) <= entries+1 (avl_height_fib). The implementation (sort/2, keysort/2 in dispatch.rs; lists.pl, ordsets.pl, "
+             "pairs.pl, assoc.pl) is tied to these models differentially on generated lists of mixed terms in every heap representation and on "
+             "histories of put_assoc/del_assoc/get_assoc, where the tree term returned by the implementation must equal the mirror's tree exactly "
+             "(shape, balance symbols, keys, values); all results are compared in Coq."),
+    "note": ("Trusted: Coq kernel + vm_compute. The sort/ordset/list models are reference (specification) models, not mirrors: the sort model is a stable "
+             "insertion sort (the result of a stable sort is unique, so this fixes Rust's sort_by/sort_unstable_by+dedup results up to ==). The library(assoc) "
+             "mirror is hand-written from src/lib/assoc.pl (no translator); a Prolog failure is None, cuts are mirrored by clause order; keysort inside "
+             "list_to_assoc is the reference stable sort (tied to the builtin by the keysort cases); head unification of the searched key with the stored key in "
+             "delete(=,...) is taken to succeed when compare/3 says = (keys for which == and unification differ are not generated); the domain_error of "
+             "list_to_assoc on duplicate keys is None and is not exercised; is_assoc/1, gen_assoc/3, get_assoc/5, map_assoc, min/max_assoc, del_min/del_max_assoc "
+             "as exported predicates and ord_list_to_assoc are not mirrored. avl_height_fib is the Fibonacci form of height <= 1.4405 log2(n+2); the real-number "
+             "logarithm statement is not proved. The invariant checker avl_ok (proved <-> invariant, avl_ok_spec) of C14.Avl replaces the earlier term-level "
+             "checker of C14.Model in the correspondence. msort/2, predsort/3, subtract/3, max_list/2 do not exist in this scryer-prolog; sorting without "
+             "duplicate removal is observed through keysort of X-X pairs, list_max/list_min replace max_list/min_list. Results are compared up to == (the harness "
+             "cannot distinguish -0.0 from 0.0). No axioms."),
+    "technique": ("Coq proof (stable_sort_generic, sort_strictly_sorted, sort_same_elements, keysort_stable, ord_*_spec, list_to_set_spec, assoc_* laws over "
+                  "reference models; avl_put_refines, avl_get_refines, avl_del_refines, avl_list_to_assoc_refines, avl_ok_spec, avl_history_refines over an "
+                  "impl-mirror of library(assoc)) + differential correspondence evaluated in Coq"),
     "design_ref": "DESIGN.md section 8, C14",
     "coq_targets": ["C14/Props.vo"],
     "coq_dirs": ["C13", "C14"],
     "props": "C14/Props.v",
     "trusted_base": ["Coq 8.16.1 kernel, vm_compute (no native_compute)", "harness/vrun + tools/vlib (correspondence)",
-                     "Python generator/renderer of checks/C13.py and checks/C14.py", "C13's reference order tcompare (proved a total preorder, tied to compare/3 by C13)"],
-    "assumptions": ["the Prolog reader builds the term the text denotes", "library(assoc) trees are only observed through assoc_to_list/get_assoc and the returned tree term"],
+                     "Python generator/renderer of checks/C13.py and checks/C14.py", "C13's reference order tcompare (proved a total preorder, tied to compare/3 by C13)",
+                     "the hand-written transcription of src/lib/assoc.pl into coq/C14/Avl.v (tied to the code by exact tree comparison on generated histories)"],
+    "assumptions": ["the Prolog reader builds the term the text denotes",
+                    "library(assoc) is observed through put_assoc/del_assoc/get_assoc/list_to_assoc results, assoc_to_list/keys/values and the returned tree term"],
 }
 
-IMPORTS = "From V Require Import Base.Term C13.Model C14.Model."
+IMPORTS = "From V Require Import Base.Term C13.Model C14.Model C14.Avl."
 HEAD = (":- use_module(library(iso_ext)).\n:- use_module(library(lists)).\n:- use_module(library(ordsets)).\n"
         ":- use_module(library(pairs)).\n:- use_module(library(assoc)).\n")
 
@@ -282,13 +296,16 @@ def distinct_keys(rng, pool, n):
 
 
 def gen_assoc(rng, pool, thorough):
-    nk = rng.choice([2, 4, 8, 14, 20])
+    nk = rng.choice([2, 4, 8, 14, 20, 32])
     keys = distinct_keys(rng, pool, nk)
     order = rng.choice(["random", "asc", "desc", "zigzag"])
     if order != "random":
         ints = [("int", i) for i in range(nk)]
         keys = ints if order == "asc" else (ints[::-1] if order == "desc" else [ints[i // 2] if i % 2 == 0 else ints[-1 - i // 2] for i in range(nk)])
-    n_init = rng.choice([0, 0, 1, 3, len(keys) // 2])
+    # "mixed": puts, dels and gets interleaved; "drain": every key is put (in the order above), then keys are deleted in a random
+    # order (deletions from a full tree reach the rotations of deladjust/avl_geq that insertions never produce)
+    mode = rng.choice(["mixed", "mixed", "drain"])
+    n_init = rng.choice([0, 0, 1, 3, len(keys) // 2, len(keys)])
     init_keys = rng.sample(keys, min(n_init, len(keys)))
     val = [0]
 
@@ -296,15 +313,25 @@ def gen_assoc(rng, pool, thorough):
         val[0] += 1
         return ("int", val[0])
     init = [pair(k, newval()) for k in init_keys]
-    nops = rng.choice([1, 3, 8, 20, 40, 60])
     ops = []
-    seq = list(keys)
-    for j in range(nops):
-        r = rng.random()
-        k = seq[j % len(seq)] if (order != "random" and r < 0.6) else rng.choice(keys)
-        if r < 0.6: ops.append(("put", k, newval()))
-        elif r < 0.8: ops.append(("del", k))
-        else: ops.append(("get", k))
+    if mode == "mixed":
+        nops = rng.choice([1, 3, 8, 20, 40, 60])
+        seq = list(keys)
+        for j in range(nops):
+            r = rng.random()
+            k = seq[j % len(seq)] if (order != "random" and r < 0.6) else rng.choice(keys)
+            if r < 0.6: ops.append(("put", k, newval()))
+            elif r < 0.8: ops.append(("del", k))
+            else: ops.append(("get", k))
+    else:
+        ops = [("put", k, newval()) for k in keys]
+        dels = list(keys) + ([rng.choice(keys)] if rng.random() < 0.5 else [])
+        rng.shuffle(dels)
+        dels = dels[:rng.choice([len(dels), len(dels), max(1, len(dels) // 2)])]
+        for k in dels:
+            ops.append(("del", k))
+            if rng.random() < 0.15: ops.append(("get", rng.choice(keys)))
+        nops = len(ops)
     q = Q(rng)
     goals = ["list_to_assoc(%s, A0)" % ("[%s]" % ",".join("%s-%s" % (q.elem(p[2][0]), q.elem(p[2][1])) for p in init))]
     cur, res = 0, []
@@ -316,7 +343,8 @@ def gen_assoc(rng, pool, thorough):
             cur += 1; res.append("R%d" % j)
         else:
             goals.append("(get_assoc(%s, A%d, G%d) -> R%d = y(G%d) ; R%d = n)" % (q.elem(op[1]), cur, j, j, j, j)); res.append("R%d" % j)
-    goals += ["assoc_to_list(A%d, L)" % cur, "T = A%d" % cur, "Res = [%s]" % ",".join(res)]
+    goals += ["assoc_to_list(A%d, L)" % cur, "assoc_to_keys(A%d, Ks)" % cur, "assoc_to_values(A%d, Vs)" % cur, "T = A%d" % cur,
+              "Res = [%s]" % ",".join(res)]
     cops = "[%s]" % "; ".join(("APut %s %s" % (terms.to_coq(o[1]), terms.to_coq(o[2]))) if o[0] == "put" else
                               ("ADel %s" % terms.to_coq(o[1])) if o[0] == "del" else ("AGet %s" % terms.to_coq(o[1])) for o in ops)
 
@@ -324,8 +352,13 @@ def gen_assoc(rng, pool, thorough):
         rs = []
         for t in as_list(b["Res"]):
             rs.append("None" if t == ("atom", "n") else "(Some %s)" % terms.to_coq(t[2][0]))
-        return "check_assoc %s %s [%s] %s %s" % (cl(init), cops, "; ".join(rs), cl(as_list(b["L"])), terms.to_coq(b["T"]))
-    return {"kind": "assoc", "query": q.text(goals), "vars": ["Res", "L", "T"], "inputs": [], "coq": coq, "order": order, "nops": nops, "nkeys": len(keys)}
+        # results, assoc_to_list/keys/values and the returned tree itself (shape and balance symbols) against the library(assoc) mirror,
+        # results and content against the finite-map reference model, the tree against the invariant checker
+        return "check_assoc_tree %s %s [%s] %s %s %s %s" % (cl(init), cops, "; ".join(rs), cl(as_list(b["L"])), cl(as_list(b["Ks"])),
+                                                           cl(as_list(b["Vs"])), terms.to_coq(b["T"]))
+    return {"kind": "assoc", "query": q.text(goals), "vars": ["Res", "L", "Ks", "Vs", "T"], "inputs": [], "coq": coq, "order": order, "nops": nops,
+            "nkeys": len(keys), "mode": mode, "ndel": sum(1 for o in ops if o[0] == "del"),
+            "spec_expr": ("match list_to_assoc tcompare (pairs_of_terms %s) with Some t0 => run_tree %s t0 | None => None end" % (cl(init), cops))}
 
 
 GENS = [("sort", gen_sort, 0.22), ("keysort", gen_keysort, 0.16), ("msort", gen_msort, 0.06), ("list_to_set", gen_list_to_set, 0.08),
@@ -389,7 +422,7 @@ def run(ctx):
                                  "input": cases[i]["query"], "impl": json.dumps(rec)[:300], "spec": "an answer", "property_fails": True})
 
     bools, bmeta = [], []
-    dist = {"cases": {}, "input_lengths": {}, "assoc_orders": {}, "assoc_ops": 0, "char_prefixed_inputs": 0, "batches_rerun_after_process_death": len(retry) // B}
+    dist = {"cases": {}, "input_lengths": {}, "assoc_orders": {}, "assoc_modes": {}, "assoc_ops": 0, "assoc_dels": 0, "assoc_trees_compared": 0, "char_prefixed_inputs": 0, "batches_rerun_after_process_death": len(retry) // B}
     nontrivial = set()
     err_seen = {}
     for idx, case in enumerate(cases):
@@ -428,6 +461,9 @@ def run(ctx):
         if case["kind"] == "assoc":
             dist["assoc_orders"][case["order"]] = dist["assoc_orders"].get(case["order"], 0) + 1
             dist["assoc_ops"] += case["nops"]
+            dist["assoc_modes"][case["mode"]] = dist["assoc_modes"].get(case["mode"], 0) + 1
+            dist["assoc_dels"] += case["ndel"]
+            dist["assoc_trees_compared"] += 1
             if case["nops"] >= 3: nontrivial.add(case["query"])
         elif any(len(l) >= 2 for l in case["inputs"]):
             nontrivial.add(case["query"])
@@ -456,6 +492,8 @@ def run(ctx):
             if m:
                 fn = {"sort": "tsort", "keysort": "tkeysort", "list_to_set": "first_occ tcompare []"}[m.group(1)]
                 spec = core.coq_eval_show(ctx.prop, IMPORTS, "%s %s" % (fn, m.group(2)))[:600]
+            if case.get("spec_expr"):
+                spec = "mirror (results, final tree): " + core.coq_eval_show(ctx.prop, IMPORTS, case["spec_expr"])[:1500]
             failures.append({"key": key, "what": "%s returns something else than the model (compared up to ==)" % pred, "input": case["query"],
                              "impl": json.dumps(ans, ensure_ascii=False)[:600], "spec": spec or ("model check: " + sub[j][:600]), "property_fails": True})
     samples = []
@@ -468,8 +506,9 @@ def run(ctx):
                  "representations, keysort with few keys incl. ==-equal keys written differently (0.0/-0.0, 1/(7 rdiv 7), \"ab\"/[a,b]) and distinct values; "
                  "sorting without duplicate removal via keysort of X-X; list_to_set; a battery of 12 ordset results per pair of sets; append/reverse/length/"
                  "nth0/nth1; sum_list/list_max/list_min over small and big integers; select/3 answer sequences; pairs_keys_values in both modes; histories of "
-                 "1..60 put_assoc/del_assoc/get_assoc over 2..20 keys inserted in random/ascending/descending/zig-zag order, observed through the results, "
-                 "assoc_to_list and the returned tree. evaluations = number of predicate results compared in Coq; non-trivial = distinct query whose input list "
+                 "put_assoc/del_assoc/get_assoc (1..60 mixed operations, or all of 2..32 keys put in random/ascending/descending/zig-zag order and then deleted in "
+                 "random order) starting from list_to_assoc of 0..all keys, observed through the results, assoc_to_list/keys/values and the returned tree, which "
+                 "must be the mirror's tree exactly (shape, balance symbols, keys, values). evaluations = number of predicate results compared in Coq; non-trivial = distinct query whose input list "
                  "has >= 2 elements (assoc: >= 3 operations)"),
         "samples": samples,
         "distribution": dist,
